@@ -105,6 +105,33 @@ def check(rep, specs, key, reverse):
                                         'observed': [impl.tag(o) for o in after]})
 
 
+def check_list_form(rep, specs, key, r):
+    """documented: `key` may be a list of keys, applied left to right (compared with `reverse` off: what `reverse` does to string keys is not part of the property); a list of `reverse`
+    flags must be as long as the list of keys, otherwise IndexError"""
+    parts = key.split(',')
+    l1, _ = impl.mklist(specs)
+    l2, _ = impl.mklist(specs)
+    l1.custom_sort(key)
+    revs = [False for _ in parts] if r.chance(1, 2) else False
+    l2.custom_sort(list(parts) if r.chance(1, 2) else tuple(parts), revs)
+    if [impl.tag(o) for o in l1] != [impl.tag(o) for o in l2]:
+        rep.violation('failing-input', {'elements': [list(s) for s in specs], 'key': parts, 'reverse': revs,
+                                        'why': 'a list of keys does not sort like the same keys separated by commas',
+                                        'observed': [impl.tag(o) for o in l2], 'expected': [impl.tag(o) for o in l1]})
+    if len(parts) >= 1:
+        l3, _ = impl.mklist(specs)
+        before = [impl.tag(o) for o in l3]
+        bad = [False] * (len(parts) + r.range(1, 2)) if r.chance(1, 2) else [True] * (len(parts) - 1)
+        try:
+            l3.custom_sort(list(parts), bad)
+            rep.violation('failing-input', {'key': parts, 'reverse': bad, 'why': 'mismatched lengths of key list and reverse list accepted '
+                                            '(keys silently dropped)', 'observed': [impl.tag(o) for o in l3], 'before': before})
+        except IndexError:
+            pass
+        except Exception as e:  # noqa
+            rep.violation('failing-input', {'key': parts, 'reverse': bad, 'why': f'raised {type(e).__name__}, not IndexError'})
+
+
 BAD_KEYS = ['x', 'q.num', 'i.ns', 's.ew', 't.we', 'r.ns', '1', 'i.sn', '', 'b.a']
 
 
@@ -125,6 +152,9 @@ def run(ctx):
         rep.sample({'elements': [s[2] if s[0] == 't' else s[1] for s in specs], 'key': key, 'reverse': reverse}, cap=5)
         items.append((impl.line_cont_sort(specs, key, reverse), impl.impl_cont_sort(specs, key, reverse),
                       {'op': 'custom_sort', 'elements': [list(s) for s in specs], 'key': key, 'reverse': reverse}))
+        if r.chance(1, 5):
+            safely(rep, 'custom_sort(list of keys)', check_list_form, specs, key, r)
+            rep.count()
         if r.chance(1, 6):
             bk = r.choice(BAD_KEYS)
             full = bk if (r.chance(1, 2) and bk) else 't,' + bk
